@@ -82,3 +82,31 @@ package syncx
 //@ func (cond *Cond) Signal
 //@   trusted
 //@   modifies nothing
+
+// Pool: created = idle + outstanding, never above limit. nodeLen[n] = length of the idle list starting at n (ghost),
+// outstanding[p] = resources handed out by Get and not yet given back by Put (ghost).
+//@ ghost var nodeLen map[*node]int
+//@ ghost var outstanding map[*Pool]int
+//@ lockinv (p *Pool) lock: p.limit >= 1 && 0 <= p.created && p.created <= p.limit && outstanding[p] >= 0 && p.created == nodeLen[p.head] + outstanding[p]
+//@ lockinv (p *Pool) lock: nodeLen[nil] == 0 && (p.head == nil || allocated(p.head)) && forall(n.(*node), nodeLen[n] >= 0 && implies(n != nil && allocated(n), nodeLen[n] == 1 + nodeLen[n.next] && (n.next == nil || allocated(n.next))))
+//@ guarded_by created, head
+
+//@ func (p *Pool) Get
+//@   property C05
+//@   flag callbacks_noheap old_at_lock
+//@   requires p.create != nil && p.destroy != nil && p.create != p.destroy
+//@   ghost at return#0: outstanding[p] = outstanding[p] + 1
+//@   ghost at before create#0: outstanding[p] = outstanding[p] + 1
+//@   ensures  outstanding[p] >= 1
+//@   ensures  calls(p.create) <= old(calls(p.create)) + 1
+//@   loop 0: modifies p.created, p.head, outstanding[p], calls(p.destroy)
+//@   loop 0: invariant held(p.lock)
+//@   loop 0: invariant p.limit >= 1 && 0 <= p.created && p.created <= p.limit && outstanding[p] >= 0 && p.created == nodeLen[p.head] + outstanding[p]
+//@   loop 0: invariant nodeLen[nil] == 0 && (p.head == nil || allocated(p.head)) && forall(n.(*node), nodeLen[n] >= 0 && implies(n != nil && allocated(n), nodeLen[n] == 1 + nodeLen[n.next] && (n.next == nil || allocated(n.next))))
+//@   loop 0: invariant calls(p.create) == old(calls(p.create))
+
+//@ func (p *Pool) Put
+//@   property C05
+//@   requires implies(x != nil, outstanding[p] >= 1)
+//@   ghost at before Signal#0: nodeLen[p.head] = 1 + nodeLen[p.head.next]
+//@   ghost at before Signal#0: outstanding[p] = outstanding[p] - 1
